@@ -10,7 +10,7 @@ META = dict(
     explanation='Dislocation.monopole (real code: supersize, shift, wrap, displacement, pbc, boundary re-typing through region.PlaneSet / region.Cylinder) is executed on concrete fcc and bcc dislocation cells with the elastic solution replaced by a STUB returning one fresh SYMBOLIC displacement vector per atom and recording its argument, and with a SYMBOLIC core centre: the solver decides, for every displacement field within the amplitude bound and every centre, that the field was evaluated at (reference position - centre), that every reference atom is kept and moved by exactly its displacement (modulo the cell vector along the line only), that the result is periodic along the line only, and that exactly the atoms whose DISPLACED position lies outside the stated box / cylinder (independent analytic definition) are re-typed.',
     functions=['atomman/defect/Dislocation/_monopole.py:monopole,box_boundary,cylinder_boundary', 'atomman/defect/Dislocation/__init__.py:set_systems,set_shift', 'atomman/region/Plane.py:below', 'atomman/region/PlaneSet.py:inside', 'atomman/region/Cylinder.py:inside', 'atomman/region/Shape.py:outside',
                'atomman/core/System.py:supersize,wrap', 'atomman/core/Atoms.py'],
-    bounds=dict(quick='fcc a/2[1-10](111) edge (line [11-2]) and screw, bcc a/2[111](1-10) screw; default sizemults (48-96 atoms); all atoms displaced symbolically |u_k| <= 0.3 angstrom, centre in [-2,2]^3; boundary widths 1.5 and 3.0 angstrom (box and cylinder) with the four atoms within 0.45 angstrom of the region surface and two others displaced symbolically |u_k| <= 0.5',
+    bounds=dict(quick='fcc a/2[1-10](111) edge (line [11-2]; m,n = y,z and the non-cyclic x,z) and screw, bcc a/2[111](1-10) screw; centre absolute and in units of the rotated cell (centerscale); default sizemults (48-96 atoms); all atoms displaced symbolically |u_k| <= 0.3 angstrom, centre in [-2,2]^3; boundary widths 1.5 and 3.0 angstrom (box and cylinder) with the four atoms within 0.45 angstrom of the region surface and two others displaced symbolically |u_k| <= 0.5',
                 thorough='same plus sizemults (1,4,2)/(4,1,2)-type cells and widths 1.0, 2.0, 4.0'),
     outside=['the elastic solution itself (C12) and therefore the disregistry accumulating to one Burgers vector: concrete samples only',
              'periodic-array configurations (deletion count, duplicate detection, linear blend, old-id mapping): whole-crystal discrete structure built through rotate/supersize/sorting of float coordinates with no input dimension for the solver; concrete samples only',
@@ -24,6 +24,7 @@ KER = ['dvect', 'dmag']
 CONFIGS = {
     'fcc_edge': dict(kind='fcc', C=dict(C11=105.0, C12=62.0, C44=28.0), burgers=[0.5, -0.5, 0.0], line=[1, 1, -2], slip=[1, 1, 1], m=[0, 1, 0], n=[0, 0, 1]),
     'fcc_screw': dict(kind='fcc', C=dict(C11=105.0, C12=62.0, C44=28.0), burgers=[0.5, -0.5, 0.0], line=[1, -1, 0], slip=[1, 1, 1], m=[1, 0, 0], n=[0, 1, 0]),
+    'fcc_edge_xz': dict(kind='fcc', C=dict(C11=105.0, C12=62.0, C44=28.0), burgers=[0.5, -0.5, 0.0], line=[1, 1, -2], slip=[1, 1, 1], m=[1, 0, 0], n=[0, 0, 1]),     # non-cyclic axis assignment (line along y)
     'bcc_screw': dict(kind='bcc1', C=dict(C11=243.0, C12=145.0, C44=116.0), burgers=[0.5, 0.5, 0.5], line=[1, 1, 1], slip=[1, -1, 0], m=[0, 1, 0], n=[0, 0, 1]),
 }
 
@@ -110,7 +111,7 @@ def face_distances(box, lineindex, p):
     return out
 
 
-def h_monopole(name, shape, width, sizemults=None, amp=0.3):
+def h_monopole(name, shape, width, sizemults=None, amp=0.3, centerscale=False):
     def fn():
         import atomman as am
         dref, base0 = reference_base(name, sizemults)
@@ -138,10 +139,17 @@ def h_monopole(name, shape, width, sizemults=None, amp=0.3):
         symbolise_rcell(d)
         stub = Stub(d.dislsol, chosen, amp)
         d._Dislocation__dislsol = stub
-        cen = [var(f'c{j}', -2.0, 2.0) for j in range(3)]
         kw = {} if sizemults is None else dict(sizemults=list(sizemults))
+        if centerscale:
+            # centre given relative to the ROTATED cell's vectors
+            crel = [var(f'c{j}', -0.3, 0.3) for j in range(3)]
+            RV = np.array(dref.rcell.box.vects, dtype=float)
+            cen = [sum(crel[k] * float(RV[k, j]) for k in range(3)) for j in range(3)]
+            cen_arg = crel; kw['centerscale'] = True
+        else:
+            cen = [var(f'c{j}', -2.0, 2.0) for j in range(3)]; cen_arg = cen
         if sx.symbolic_mode() and width > 0: sx.ctx().force_masks = True      # the outside() mask indexes the integer type array: decided element by element
-        base, ds = d.monopole(center=sa(cen) if sx.symbolic_mode() else np.array(cen), boundaryshape=shape, boundarywidth=width, return_base_system=True, **kw)
+        base, ds = d.monopole(center=sa(cen_arg) if sx.symbolic_mode() else np.array(cen_arg), boundaryshape=shape, boundarywidth=width, return_base_system=True, **kw)
         ob = []
         if base.natoms != n:
             return [('reference system: number of atoms', False)]
@@ -223,6 +231,15 @@ def h_samples():
             dv = am.dvect(base.atoms.pos, ds.atoms.pos, ds.box, ds.pbc)
             ok = ok and bool(np.all(np.asarray(base.atoms.atype) == np.asarray(ds.atoms.atype))) and float(np.linalg.norm(dv, axis=1).max()) < 1.01 * np.linalg.norm(b)
             ob.append((f'{name} periodic array: removes the atoms of the edge component ({nfull} -> {ds.natoms}, expected {nexp}), periodic in the slip plane, no overlapping atoms, each atom maps back to its reference atom', bool(ok)))
+            # linear blend only: the disregistry is exactly linear along m and accumulates one Burgers vector per period
+            dl = make_disl(name)
+            basel, dsl = dl.periodicarray(sizemults=list(sm), linear=True, return_base_system=True)
+            xl, disl_ = am.defect.disregistry(basel, dsl, m=mvec, n=nvec)
+            bdir = b / np.linalg.norm(b)
+            comp = np.unwrap(disl_ @ bdir, period=np.linalg.norm(b))
+            keep = (xl > xl.min() + 0.15 * (xl.max() - xl.min())) & (xl < xl.max() - 0.15 * (xl.max() - xl.min()))
+            slope = np.polyfit(xl[keep], comp[keep], 1)[0]
+            ob.append((f'{name} periodic array (linear blend): disregistry slope x period = {abs(slope) * L:.4f} vs |b| = {np.linalg.norm(b):.4f}', bool(abs(abs(slope) * L - np.linalg.norm(b)) < 0.015 * np.linalg.norm(b))))
             x, dis = am.defect.disregistry(base, ds, m=mvec, n=nvec)
             tot = dis[-1] - dis[0]
             ob.append((f'{name} periodic array: disregistry accumulates to one Burgers vector ({np.round(tot, 3).tolist()} vs {np.round(b, 3).tolist()})', bool(np.linalg.norm(np.abs(tot) - np.abs(b)) < 0.25 * np.linalg.norm(b))))
@@ -235,11 +252,15 @@ def cases(tier, seed=0):
     for name in CONFIGS:
         cs.append(Case(f'monopole_{name}_field', h_monopole(name, 'cylinder', 0.0), bind=BIND, kernels=KER, maxcases=32, max_paths=60, budget_s=280, timeout_ms=20000, weight=4,
                        descr=f'{name}: every atom displaced by an arbitrary bounded field, symbolic centre, no boundary'))
-    widths = (1.5, 3.0) if tier == 'quick' else (1.0, 1.5, 2.0, 3.0, 4.0)
     for name in (('fcc_edge', 'bcc_screw') if tier == 'quick' else tuple(CONFIGS)):
-        for shape in ('box', 'cylinder'):
-            for w in widths:
-                cs.append(Case(f'monopole_{name}_{shape}_w{w}', h_monopole(name, shape, w, amp=0.5), bind=BIND, kernels=KER, maxcases=32, max_paths=300, budget_s=280, timeout_ms=20000, weight=4,
-                               descr=f'{name}: boundary {shape} of width {w}; atoms next to the region surface displaced symbolically'))
+        cs.append(Case(f'monopole_{name}_field_centerscale', h_monopole(name, 'cylinder', 0.0, centerscale=True), bind=BIND, kernels=KER, maxcases=32, max_paths=60, budget_s=280, timeout_ms=20000, weight=4,
+                       descr=f'{name}: symbolic centre given in units of the rotated cell vectors (centerscale=True)'))
+    if tier == 'quick':
+        combos = [('fcc_edge', 'box', 1.5), ('fcc_edge', 'cylinder', 3.0), ('bcc_screw', 'box', 3.0), ('bcc_screw', 'cylinder', 1.5), ('fcc_edge_xz', 'box', 3.0), ('fcc_edge_xz', 'cylinder', 1.5), ('fcc_edge_xz', 'cylinder', 3.0)]
+    else:
+        combos = [(n_, sh, w) for n_ in CONFIGS for sh in ('box', 'cylinder') for w in (1.0, 1.5, 2.0, 3.0, 4.0)]
+    for name, shape, w in combos:
+        cs.append(Case(f'monopole_{name}_{shape}_w{w}', h_monopole(name, shape, w, amp=0.5), bind=BIND, kernels=KER, maxcases=32, max_paths=300, budget_s=280, timeout_ms=20000, weight=4,
+                       descr=f'{name}: boundary {shape} of width {w}; atoms next to the region surface displaced symbolically'))
     cs.append(Case('samples', h_samples(), concrete_only=True, budget_s=200, descr='CONCRETE SAMPLES (not solver-decided): disregistry of the real elastic solution, periodic-array configurations'))
     return cs
